@@ -9,8 +9,8 @@
 (*               content (held in memory under that hash) or kind "back"    *)
 (*               with x = the bytes found at its offset/length in the       *)
 (*               reader the archive was opened from                         *)
-(*   dataByHash  set of <<hash, content>>, one pair per hash (a later       *)
-(*               insert under the same hash replaces the content)           *)
+(*   dataByHash  function hash -> content (a later insert under the same    *)
+(*               hash replaces the content)                                 *)
 (*   idsByHash   set of <<hash, id>>: the reference sets                    *)
 (* The properties hold when Hash is injective on the contents in use (the   *)
 (* instances use the identity); MC_Store_collision.cfg runs a colliding     *)
@@ -20,7 +20,7 @@
 (* One action per public call; a refused call is the separate action        *)
 (* AddEmpty so that "rejected = stutter on the store" is a checked fact.    *)
 (***************************************************************************)
-EXTENDS Integers, Sequences, FiniteSets
+EXTENDS Integers, Sequences, FiniteSets, TLC
 
 CONSTANTS Empty,                    \* the empty content
           Hash(_)                   \* the content hash the builder keys its maps by
@@ -38,14 +38,14 @@ IdsOf(t) == {x[1] : x \in t}
 EntryOf(t, id) == CHOOSE x \in t : x[1] = id
 
 InitStore ==
-  /\ abs = {} /\ tileById = {} /\ dataByHash = {} /\ idsByHash = {}
+  /\ abs = {} /\ tileById = {} /\ dataByHash = <<>> /\ idsByHash = {}
   /\ reply = Ok
 
 \* state right after opening an archive whose resolution is the map m (set of <<id, content>>)
 OpenedFrom(m) ==
   /\ abs' = m
   /\ tileById' = {<<p[1], "back", p[2]>> : p \in m}
-  /\ dataByHash' = {} /\ idsByHash' = {}
+  /\ dataByHash' = <<>> /\ idsByHash' = {}
   /\ reply' = Ok
 
 \* what remove_tile does to the three maps
@@ -55,13 +55,13 @@ Unbind(t, d, r, id) ==
        IF x[2] = "back" THEN [t |-> t \ {x}, d |-> d, r |-> r]
        ELSE LET r2 == r \ {<<x[3], id>>}
                 still == \E q \in r2 : q[1] = x[3]
-            IN [t |-> t \ {x}, d |-> IF still THEN d ELSE {p \in d : p[1] # x[3]}, r |-> r2]
+            IN [t |-> t \ {x}, d |-> IF still THEN d ELSE [k \in DOMAIN d \ {x[3]} |-> d[k]], r |-> r2]
 
 AddTile(id, c) ==
   /\ c # Empty
   /\ LET u == Unbind(tileById, dataByHash, idsByHash, id)  h == Hash(c) IN
        /\ tileById'   = u.t \cup {<<id, "mem", h>>}
-       /\ dataByHash' = {p \in u.d : p[1] # h} \cup {<<h, c>>}
+       /\ dataByHash' = (h :> c) @@ u.d
        /\ idsByHash'  = u.r \cup {<<h, id>>}
   /\ abs' = {p \in abs : p[1] # id} \cup {<<id, c>>}
   /\ reply' = Ok
@@ -75,12 +75,12 @@ RemoveTile(id) ==
   /\ reply' = Ok
 
 \* the bytes a tile entry stands for: looked up under its hash, or read from the backing reader
-Stored(d, h) == {p \in d : p[1] = h}
-ContentOfEntry(x, d) == IF x[2] = "back" THEN x[3] ELSE (CHOOSE p \in Stored(d, x[3]) : TRUE)[2]
+Held(d, h) == h \in DOMAIN d
+ContentOfEntry(x, d) == IF x[2] = "back" THEN x[3] ELSE d[x[3]]
 GetTile(id) ==
   /\ reply' = IF id \in IdsOf(tileById)
               THEN LET x == EntryOf(tileById, id) IN
-                   IF x[2] = "mem" /\ Stored(dataByHash, x[3]) = {} THEN None ELSE Some(ContentOfEntry(x, dataByHash))
+                   IF x[2] = "mem" /\ ~Held(dataByHash, x[3]) THEN None ELSE Some(ContentOfEntry(x, dataByHash))
               ELSE None
   /\ UNCHANGED storeVars
 
@@ -92,17 +92,16 @@ SaveReopen == OpenedFrom(abs)
 
 (* ---- properties ------------------------------------------------------------ *)
 \* C04: the implementation-shaped state refines the map
-Resolvable == \A x \in tileById : x[2] = "mem" => Stored(dataByHash, x[3]) # {}
+Resolvable == \A x \in tileById : x[2] = "mem" => Held(dataByHash, x[3])
 Refines == Resolvable /\ {<<x[1], ContentOfEntry(x, dataByHash)>> : x \in tileById} = abs
 FunctionalAbs == Cardinality({p[1] : p \in abs}) = Cardinality(abs)
 FunctionalT   == Cardinality(IdsOf(tileById)) = Cardinality(tileById)
 
 \* C10 (retention): exactly one copy of each content some in-memory tile refers to, and none other
 MemHashes == {x[3] : x \in {y \in tileById : y[2] = "mem"}}
-MemContents == {p[2] : p \in dataByHash}
+MemContents == {dataByHash[h] : h \in DOMAIN dataByHash}
 Retention ==
-  /\ {p[1] : p \in dataByHash} = MemHashes                         \* one copy per referenced hash, none unreferenced
-  /\ Cardinality(dataByHash) = Cardinality(MemHashes)
+  /\ DOMAIN dataByHash = MemHashes                                  \* one copy per referenced hash, none unreferenced
   /\ idsByHash = {<<x[3], x[1]>> : x \in {y \in tileById : y[2] = "mem"}}
 
 \* observations agree with the map
